@@ -8,3 +8,9 @@ import AGV.Props.C13
 #print axioms AGV.Props.C13.c13_number_violated_by_intAsFloat
 #print axioms AGV.Props.C13.c13_number_violated_by_floatDoubleRounding
 #print axioms AGV.Props.C13.c13_full_violated_by_numberDigitFollow
+#print axioms AGV.Props.C13.c13_block
+#print axioms AGV.Props.C13.c13_unique
+#print axioms AGV.Props.C13.c13_depth_accept
+#print axioms AGV.Props.C13.c13_depth_within
+#print axioms AGV.Props.C13.c13_depth
+#print axioms AGV.Props.C13.c13_depth_unrestricted_false
